@@ -29,6 +29,39 @@ CHECKS = {
  "C16": dict(technique="exhaustive table check (94 elements x 2001-point grid, analytic monotonicity) + Hypothesis point-wise checks",
     text="Every table entry: f(0)=Z within 0.1 against an independent Z list, positivity and strict decrease on [0,2] (analytically where all a_i*b_i>0, grid + Lipschitz bound otherwise), FormFactor equals the nine-coefficient formula to 1e-13.",
     note="Exhaustive over the finite table; continuous s covered by grid + derivative bound.", ref="4/C16"),
+ "C04": dict(technique="exhaustive exact-arithmetic group check of all 237 tables + Hypothesis name-variant and conforming-cell generation",
+    text="Every setting, every operation and every ordered pair of operations (closure, inverses, duplicates, counts, nuniq block, centring count) in integer/24th arithmetic; Laue class against reference groups generated from hand-written generators; crystal system; exact metric preservation on a basis of conforming metric tensors; no two numbers share an operator table; every dictionary key, plus generated case/whitespace/R..h/R..r variants and random conforming cells.",
+    note="Exhaustive over the finite tables (exhaustive:true); name variants and cells are sampled.", ref="4/C04"),
+ "C05": dict(technique="Hypothesis PBT per space-group setting against brute-force reciprocal-lattice enumeration with operator extinction; scan model to recognise known finding K1",
+    text="All 237 settings in every run; conforming cells incl. orthogonal-metric triclinic/monoclinic ones, shells whose bounds are mid-gap between lattice sin(theta)/lambda values, by name and by number, two numpy seeds, both modules. genhkl_all must equal the oracle set exactly (no extra, missing, repeated rows), be RNG independent, and match between hexagonal and rhombohedral settings under the obverse transformation. 9.5k cases quick, 95k thorough.",
+    note="Known finding K1 (early-exit scan in Laue -1, 2/m, rhombohedral -3/-3m) is reported only when no member of the missing reflection's Laue orbit is visited by an independent model of the documented scan; any other difference in those classes is a violation.", ref="4/C05"),
+ "C06": dict(technique="Hypothesis PBT per setting: Laue-orbit partition, union, sortedness, metric-oracle stl column, boundary metamorphic re-calls",
+    text="genhkl_unique rows have pairwise disjoint Laue orbits whose union is exactly genhkl_all, every row is an allowed reflection of the shell and every allowed family is represented (K1 as in C05), column 4 equals the metric-tensor sin(theta)/lambda (1e-12) and is non-decreasing, rows identical with/without output_stl, sintlmax inclusive / sintlmin exclusive by re-calling with a returned row's own sintl.",
+    note="Boundary re-calls only in Laue classes whose scan is complete; K1 handled by the same predicate as C05.", ref="4/C06"),
+ "C07": dict(technique="Hypothesis PBT per setting: metamorphic relation F(hR) = F(h) exp(-2 pi i h.t), extinction, Friedel",
+    text="All 237 settings by name (case/blank variants); general-position atoms with Uiso / positive-definite Uani / no ADP and any element; transformation law, |F| over the orbit, F=0 for operator-extinct reflections, Friedel pairs. Tolerance is a rigorous bound from the 6-digit rounding of tabulated thirds/sixths plus 1e-9 of the total scattering power.",
+    note="Relation derived from the group law (R,t)(R_j,t_j); rounding allowance 4 pi sum(occ f0) nsymop |h|_1 delta.", ref="4/C07"),
+ "C08": dict(technique="Hypothesis PBT per setting: differential against an explicit unit-cell sum built from exact rational orbits",
+    text="StructureFactor compared with the direct sum over every distinct image of every site (general and special positions with exact multiplicity, site-symmetrised Uani, dispersion table present / partially None / absent, hkl incl. 000, oblique cells), plus lattice-shift invariance, occupancy linearity, Uiso == equivalent Uani, F(000).",
+    note="Form factor recomputed from the nine coefficients; sin(theta)/lambda from the metric tensor, not from xfab.", ref="4/C08"),
+ "C14": dict(technique="Hypothesis differential testing tools vs laue over all 41 common functions",
+    text="Every function defined in both modules is called on the same generated input under the documented convention map (B x 2pi, g x 2pi, everything else identical); reflection lists compared as integer row sets + stl; exceptions must agree in type. The common-function list is recomputed with inspect at run time. 8k cases quick, 190k thorough.",
+    note="K2 (tools.ubi_to_u_and_eps strain) matched by exact signature; near-tangency solution counts are not claimed.", ref="4/C14"),
+ "C15": dict(technique="Hypothesis PBT per setting + exhaustive 1728-point rational grid (thorough) against an exact Fraction orbit count",
+    text="All 237 settings; grid and family positions (x,x,z),(x,2x,z),(x,-x,z),(x,0,z),(x,x,x),(x,y,z), lattice shifts, by name variants and by number; multiplicity must equal the exact orbit size. Thorough enumerates the whole grid for every setting (409k positions).",
+    note="Positions whose distinct images come closer than 1e-4 are skipped (the code's own 1e-5 threshold would make the answer threshold-dependent).", ref="4/C15"),
+ "C17": dict(technique="Hypothesis structure-aware file generation (CIF and PDB writers) with the generating model as oracle",
+    text="Generated well-formed CIF blocks (all adp kinds, esds, optional occupancy / multiplicity spellings / atom-type loop / global block, aniso loop in different order) and PDB files (all 230 symbols in PDB style incl. place-holder and non-place-holder '1's, oblique cells, ATOM/HETATM); every stored field compared with the numbers as printed; computed multiplicities against the exact orbit.",
+    note="PyCifRW (third party) parses the CIF text; the writer obeys its well-formedness rules.", ref="4/C17"),
+ "C18": dict(technique="Hypothesis PBT against an independent successive-minima search with tie enumeration and a unimodular-equivalence search",
+    text="Reduced-like cells and conforming families, optionally transformed by one of the 6960 unimodular {-1,0,1} matrices; output metric must be R.R' for a basis R the independent search admits, volume preserved, integer unimodular relation to the input metric. Known finding K3 (cell of R'R) recognised by exact signature only.",
+    note="Cases whose true successive minima lie outside |u|,|v|,|w| <= 2 are outside the stated domain and skipped (counted).", ref="4/C18"),
+ "C19": dict(technique="Hypothesis rule-based state machine against a dict model + Hypothesis save/load round trips",
+    text="Histories of <= 30 API calls (addpar, set, set_parameters, set_varylist valid/invalid, set_variable_values right/wrong length, update_other, update_yourself, save+load fresh, load into self) compared with a plain dict/list model after every step (type-exact, floats bit-exact); separate round-trip cases over all value types the format carries. Failing histories are minimised by deletion and replayed without Hypothesis.",
+    note="Whitespace / non-ASCII values are outside the domain; NaN compared as is-NaN.", ref="4/C19"),
+ "C20": dict(technique="Hypothesis rule-based state machine: switch model x clearly-valid / clearly-invalid input classes",
+    text="Histories of assignments (valid and 10 kinds of invalid values) interleaved with calls of the nine guarded APIs of both modules and Umis on clearly valid inputs (exact, float32-rounded, 1e-7 noise, in-range Euler incl. end points, right-handed UBI) and clearly invalid ones (>=3e-3 perturbation, improper, scaled, out-of-range Euler, left-handed UBI, det<0 UB); rejection recognised operationally; values must not depend on the switch.",
+    note="In the off state only the library's own 'Wrong trace'/_arctan2 value errors are tolerated.", ref="4/C20"),
  "C01": dict(technique="Hypothesis property-based testing against an independent metric-tensor oracle",
     text="Generated-input search (20k cases quick, 800k thorough) over the whole stated cell domain incl. the Gram=0.02 boundary; every case compares A, B, volume, sintl, cell_invert and the inverse maps of both modules with the metric tensor written from its definition at 1e-9 relative. Exploration, not proof: it never establishes absence, but any formula edit moves results by >=1e-3 on oblique cells, which make up >40% of cases.",
     note="Trusted: numpy linear algebra, Hypothesis generation; tolerances 1e-9/1e-8 (measured worst 2e-13).", ref="4/C01"),
